@@ -24,7 +24,7 @@ fn p_ord(o: Option<Ordering>) -> String {
     }
 }
 
-const POINTS: [u32; 10] = [0, 1, 2, 47, 48, 57, 58, 97, MAX_CHAR - 1, MAX_CHAR];
+const POINTS: [u32; 14] = [0, 1, 2, 47, 48, 57, 58, 97, 0xD800, 0xDBFF, 0xDFFF, 0xE000, MAX_CHAR - 1, MAX_CHAR];
 
 fn unary(t: &mut Trace, s: &CharSet, xs: &[u32]) {
     let ss = cs_str(s);
@@ -53,6 +53,12 @@ fn binary(t: &mut Trace, s: &CharSet, u: &CharSet) {
     let r = guarded(|| p_ord(s.partial_cmp(u)));
     t.count(&format!("cmp={}", r));
     t.op(&format!("cs partial_cmp {} {}", ss, us), &r, true);
+    // the comparison operators must be the ones derived from partial_cmp
+    t.op(&format!("cs lt {} {}", ss, us), &guarded(|| p_bool(s < u)), true);
+    t.op(&format!("cs le {} {}", ss, us), &guarded(|| p_bool(s <= u)), true);
+    t.op(&format!("cs gt {} {}", ss, us), &guarded(|| p_bool(s > u)), true);
+    t.op(&format!("cs ge {} {}", ss, us), &guarded(|| p_bool(s >= u)), true);
+    t.op(&format!("cs eq {} {}", ss, us), &guarded(|| p_bool(s == u)), true);
 }
 
 fn inter_list(t: &mut Trace, l: &[CharSet]) {
@@ -62,7 +68,7 @@ fn inter_list(t: &mut Trace, l: &[CharSet]) {
 }
 
 pub fn run(t: &mut Trace, rng: &mut Rng, thorough: bool) {
-    t.rule = "all intervals [a,b] with a<=b over the boundary points {0,1,2,47,48,57,58,97,MAX-1,MAX}: every unary op at every point, every binary op on every ordered pair, inter_list on lists of length 0..4 (all triples in thorough); plus seeded random intervals. Every case is distinct by construction (keyed by the operation line); all are counted non-trivial except inter_list on lists shorter than 2".into();
+    t.rule = "all intervals [a,b] with a<=b over the boundary points {0,1,2,47,48,57,58,97,0xD800,0xDBFF,0xDFFF,0xE000,MAX-1,MAX}: every unary op at every point, every binary op on every ordered pair, inter_list on lists of length 0..4 (all triples in thorough); plus seeded random intervals. Every case is distinct by construction (keyed by the operation line); all are counted non-trivial except inter_list on lists shorter than 2".into();
     let mut sets = Vec::new();
     for (i, &a) in POINTS.iter().enumerate() {
         for &b in &POINTS[i..] {
